@@ -22,10 +22,16 @@ PATCH_WALK = {"src/search.c": PATCH["src/search.c"] + [
     (r"\t/\* To Unicode \*/\n\n(\thp = s->haystack;\n\tfirst = hp;)", (CUT % ("_this", "+1")).replace("\\", "\\\\") + r"\1"),
     (r"\t/\* To Unicode \*/\n\n(\thp = s->haystack;\n\trow = \(this == start\))", (CUT % ("this", "-1")).replace("\\", "\\\\") + r"\1")]}
 
+# haystack obligation: page slice of text rows 1..2 (-DLAST_ROW=3): with the real 23 rows the write position in the haystack is symbolic for 900
+# further iterations after the first symbolic cell (no verdict in 300 s)
+PATCH_ROWS = {"src/search.c": PATCH["src/search.c"] + [(r"#define LAST_ROW 24", "#ifndef LAST_ROW\n#define LAST_ROW 24\n#endif")]}
+
 STUBS = ["_vbi_cache_foreach_page = harness model: walks the cached subset of a sorted universe of NP pages in cyclic (pgno, subno) order from the "
          "given position, `wrapped' after the page number wrapped, stops when the callback returns non-zero, 0 when nothing is cached",
          "vbi_format_vt_page = blank 25x41 page carrying pgno/subno (haystack obligation: rows 1-2 symbolic at columns 0..HC-1, 39, 40)",
-         "ure_exec = abstract matcher: one occurrence per matching page at a symbolic fixed character position of the haystack",
+         "walk obligation: haystack construction + ure_exec + highlight of search_page_fwd/_rev replaced (textual cut of the scratch copy at the comment "
+         "'To Unicode') by c17_cut: one occurrence per matching page, no further occurrence when the search resumes inside the page found last",
+         "haystack obligation: ure_exec = records its arguments, returns 'no match'",
          "ure_buffer_create/ure_compile/ure_dfa_free/ure_buffer_free = dummies recording their arguments",
          "src/search.c compiled from a scratch copy: return type of the vbi_search_next definition aligned with its prototype"]
 
@@ -45,12 +51,10 @@ def obligations(tier, seed):
         Ob("walk", func="h_c17_walk", desc=walk_desc,
            encodes=["vbi_search_new", "vbi_search_next", "search_page_fwd", "search_page_rev", "highlight", "vbi_search_delete"],
            defines=dict(known), unwind=12, unwindset=us, patch=PATCH_WALK,
-           grid=[dict(NP=n, NCALLS=3, DIRS=d, OCC=o) for n in (2, 3) for d in range(8) for o in (0, 80)] +
-                [dict(NP=1, NCALLS=4, DIRS=d, OCC=41) for d in (0, 5, 10, 15)] + [dict(NP=2, NCALLS=4, DIRS=d, OCC=39) for d in (0, 3, 6, 9, 15)],
-           quick_grid=[dict(NP=2, NCALLS=3, DIRS=d, OCC=o) for (d, o) in ((7, 0), (0, 80), (5, 41), (2, 39), (3, 0), (4, 80))] + [dict(NP=1, NCALLS=4, DIRS=15, OCC=0)],
-           bounds="NP <= 3 pages in the universe, NCALLS <= 4 calls; direction sequence (DIRS bit c = call c forward) and position of the occurrence (OCC) "
-                  "enumerated on the grid (all 8 direction sequences for 3 calls); one occurrence per matching page; page contents fixed over the calls, "
-                  "membership in the cache symbolic per call; search.c compiled with LAST_ROW = 3 (text rows 1..2)",
+           grid=[dict(NP=2, NCALLS=3), dict(NP=1, NCALLS=4), dict(NP=3, NCALLS=3), dict(NP=2, NCALLS=4), dict(NP=3, NCALLS=4)],
+           quick_grid=[dict(NP=2, NCALLS=3), dict(NP=1, NCALLS=4)],
+           bounds="NP <= 3 pages in the universe, NCALLS <= 4 calls, direction symbolic per call; one occurrence per matching page; page contents fixed over "
+                  "the calls, membership in the cache symbolic per call; callbacks cut after the format call (c17_cut)",
            assumes=[] if STRICT else ["KNOWN_C17_NO_STOP_PAGE (known finding): in every call some cached page lies at or beyond the origin of the pass "
                                       "(forward: key >= origin, backward: key <= origin); without such a page the real walk never ends"],
            outside="progress callback / CANCELED, formatting errors, replaced page contents between calls, more than one occurrence per page, ure.c",
@@ -66,13 +70,17 @@ def obligations(tier, seed):
                    "-DC17_STRICT_ESCAPE turns that into a failure",
            reach=["end", "empty", "harmless_extra_backslash", "all_escaped"], timeout=300, mem_gb=4, vin_size=32, **common),
         Ob("haystack", func="h_c17_haystack",
-           desc="haystack construction of search_page_fwd (through vbi_search_next on a one-page cache): rows 1..23, columns 0..39 in order, one character per "
+           desc="haystack construction of search_page_fwd (through vbi_search_next on a one-page cache): text rows, columns 0..39 in order, one character per "
                 "normal/double-height/double-width/double-size cell, continuation cells (OVER_TOP/OVER_BOTTOM/DOUBLE_HEIGHT2/DOUBLE_SIZE2) skipped, one "
                 "separator 0x000A per row, total length as computed and within the haystack buffer; matcher run once on the whole text",
-           encodes=["search_page_fwd", "vbi_search_next", "vbi_search_new"], defines={"NP": 1, "HC": 3}, unwind=42, unwindset=us_hay, patch=PATCH,
-           bounds="rows 1 and 2 symbolic at columns 0..2, 39, 40 (size attribute, unicode, all other attributes), rest of the page blank",
+           encodes=["search_page_fwd", "vbi_search_next", "vbi_search_new"], defines={"NP": 1, "HC": 2}, grid=[dict(SIZES=v) for v in ("0000", "1400", "3400", "2014", "4500", "6734", "0734", "2234", "5600", "1434")],
+           quick_grid=[dict(SIZES=v) for v in ("0000", "1400", "2014", "6734")],
+           unwind=42, unwindset=us_hay, patch=PATCH,
+           bounds="real page geometry (rows 1..23); rows 1 and 2 carry symbolic cells at columns 0, 1, 39, 40 (unicode and all attributes symbolic, the SIZE "
+                  "attribute of the four cells enumerated on the grid: 10 patterns covering normal, double width/height/size, continuation cells; symbolic "
+                  "sizes: 10 GB / no verdict even for one row), other cells blank",
            assumes=["documented vbi_page invariant (format.h, vbi_size): the right neighbour of a DOUBLE_WIDTH/DOUBLE_SIZE cell is an OVER_TOP cell with the same unicode"],
            outside="search_page_rev's copy of the same loop (covered only through the walk obligation on blank pages)",
-           reach=["end", "folded", "all_symbolic_cells_skipped_or_folded"], timeout=300, mem_gb=4, vin_size=96, **common),
+           reach=["end"], timeout=300, mem_gb=4, vin_size=96, **common),
     ]
     return obs
